@@ -253,7 +253,9 @@ fn ensure_counts<F: Fl>(u: &Unpaired<F>, na: usize, nb: usize) -> Result<(), CIE
 
 /// the crate's documented effective degrees of freedom
 pub fn eff_dof(ta: f64, tb: f64, na: f64, nb: f64) -> f64 {
-    (ta + tb) * (ta + tb) / (ta * ta / (na + 1.0) + tb * tb / (nb + 1.0)) - 2.0
+    // evaluated on the shares ta/(ta+tb), tb/(ta+tb) so that the reference itself cannot overflow or underflow
+    let (ra, rb) = (ta / (ta + tb), tb / (ta + tb));
+    1.0 / (ra * ra / (na + 1.0) + rb * rb / (nb + 1.0)) - 2.0
 }
 
 /// reference for the unpaired interval: expected bounds and tolerance; None when outside the domain
@@ -415,6 +417,29 @@ pub fn run(run: &mut Run) {
         crate::engine::prop_on(obs, "paired", cases / shards as u32, sd, strategy(max_n), paired_case);
         crate::engine::prop_on(obs, "unpaired", cases / shards as u32, sd ^ 0x55, strategy(max_n), unpaired_case);
     });
+    // large and unbalanced sizes around the t -> z switch: the documented dof depends on both samples
+    let big: Vec<(usize, usize)> = match run.tier {
+        crate::engine::Tier::Quick => vec![(100_001, 2), (2, 100_001), (150_000, 7), (100_001, 100_003), (99_999, 3)],
+        crate::engine::Tier::Thorough => vec![(100_001, 2), (2, 100_001), (150_000, 7), (7, 150_000), (100_001, 100_003), (99_999, 3), (100_000, 2), (100_002, 5), (300_000, 40), (120_000, 99_999), (250_000, 250_000)],
+    };
+    let seed_big = run.seed_for("large", 0);
+    let big_ref = &big;
+    run.par(big.len() * 6, |j, obs| {
+        let (na, nb) = big_ref[j / 6];
+        let f32_ = j % 2 == 1;
+        let kind = ((j / 2) % 3) as u8;
+        let r = -(1i32 << 20)..=(1i32 << 20);
+        let s = (prop::collection::vec((r.clone(), r.clone()), na..=na), prop::collection::vec((r.clone(), r), nb..=nb), gen::level(), 0usize..6, 0usize..6, -8i32..=8).prop_map(move |(ra, rb, level, sa, sb, eb)| Case {
+            a: Sample { f32: f32_, shape: gen::SHAPES[sa].into(), data: crate::fl::xs(&gen::build_values(f32_, sa, 3, false, 0, &ra)) },
+            b: Sample { f32: f32_, shape: gen::SHAPES[sb].into(), data: crate::fl::xs(&gen::build_values(f32_, sb, 5, true, eb, &rb)) },
+            conf: Conf::new(kind, level),
+            style: (j % 8) as u8,
+            cuts: vec![],
+        });
+        for c in crate::engine::draw(&s, crate::engine::mix(seed_big, "large", j as u64), 1) {
+            crate::engine::case_on(obs, "unpaired", &c, unpaired_case);
+        }
+    });
     for f32_ in [false, true] {
         for la in 0..7usize {
             for lb in 0..7usize {
@@ -433,7 +458,7 @@ pub fn run(run: &mut Run) {
     for s in UNPAIRED_STYLES {
         run.require_class(&format!("unpaired/style/{s}"));
     }
-    for c in ["lengths/first-longer", "lengths/second-longer", "unpaired/nontrivial/f32/unequal-sizes", "unpaired/nontrivial/f64/equal-sizes", "unpaired/one-constant-sample", "unpaired/variance-ratio>=2^10", "unpaired/mirror/bit-exact", "paired/mirror/bit-exact"] {
+    for c in ["lengths/first-longer", "lengths/second-longer", "unpaired/nontrivial/f32/unequal-sizes", "unpaired/nontrivial/f64/equal-sizes", "unpaired/one-constant-sample", "unpaired/variance-ratio>=2^10", "unpaired/f64/n>=100000+n2-9/two", "unpaired/f32/n2-9+n>=100000/lower", "unpaired/mirror/bit-exact", "paired/mirror/bit-exact"] {
         run.require_class(c);
     }
     run.assumptions.push("correctness of Arithmetic itself is C01's business; the paired check is a differential one".into());
